@@ -112,12 +112,38 @@ _CHECK = None
 _DEADLINE = None
 
 
-def deadline():
-    return _DEADLINE
+class StopTask(BaseException):
+    """Kept for `except runner.StopTask` clauses; no longer raised (hypothesis treats any
+    exception escaping a test body as a failure and replays it, which then looks flaky)."""
+
+
+def check_budget(res, enough_mismatches=None):
+    """Call as the FIRST statement of a hypothesis test body (or of a state machine's
+    initialize rule): when the task's budget is used up, or enough mismatches were collected,
+    the example is rejected (hypothesis.reject), so the remaining examples cost nothing.
+    Only at the start of an example, where the drawn arguments make the choice sequence
+    novel: concluding at a point where an earlier example went on drawing is reported by
+    hypothesis as inconsistent data generation."""
+    import hypothesis
+    if time.time() > _DEADLINE:
+        res.truncated = True
+        hypothesis.reject()
+    if enough_mismatches is not None and res.hist['mismatch'] >= enough_mismatches:
+        hypothesis.reject()
 
 
 def time_left():
     return _DEADLINE - time.time()
+
+
+def over_budget(res):
+    """True once the task's wall-clock budget is used up.  Test bodies call this AFTER their
+    last data draw and before any work on the system under test: skipping draws would make data
+    generation depend on the clock, which hypothesis reports as flaky."""
+    if time.time() > _DEADLINE:
+        res.truncated = True
+        return True
+    return False
 
 
 def _worker(task):
